@@ -771,7 +771,10 @@ class EvolutionarySolver(RandomSearchSolver):
         ]
 
         for edge in edges:
-            possible_edges = set(edges) - circuit.find_incompatible_edges(edge)
+            # keep the (deterministic) order of the edge list: iterating a set of edge tuples, which contain
+            # strings, would make the result depend on the hash seed of the process
+            incompatible = circuit.find_incompatible_edges(edge)
+            possible_edges = [e for e in edges if e not in incompatible]
 
             for another_edge in possible_edges:
                 edge_pair.append((edge, another_edge))
@@ -808,7 +811,9 @@ class EvolutionarySolver(RandomSearchSolver):
         ]
 
         for edge in e_edges:
-            possible_edges = set(p_edges) - circuit.find_incompatible_edges(edge)
+            # keep the (deterministic) order of the edge list, see _select_possible_cnot_position
+            incompatible = circuit.find_incompatible_edges(edge)
+            possible_edges = [e for e in p_edges if e not in incompatible]
 
             for another_edge in possible_edges:
                 edge_pair.append((edge, another_edge))
